@@ -242,6 +242,21 @@ func (b *c07Built) input() map[string]any {
 }
 
 // checkStamps decodes a package and checks every stored timestamp against the allowed set.
+// c07UnsetAllowed: where an unset time is what the format's writer always stores, whatever the configuration says:
+// gzip headers (compress/gzip is given no ModTime: 0; pgzip/klauspost write their own constant), the cpio headers of
+// rpmpack, and the .PKGINFO member of the apk control segment (apk.createBuilderControl sets no ModTime).
+func c07UnsetAllowed(format string, s stamp, kind string) bool {
+	switch {
+	case s.Class == "gzip-header":
+		return true
+	case format == "rpm" && s.Class == "cpio-member":
+		return kind == "zero"
+	case format == "apk" && s.Class == "tar-member" && strings.HasSuffix(s.Where, ":.PKGINFO"):
+		return kind == "zero"
+	}
+	return false
+}
+
 func checkStamps(c *Ctx, fam *report.Family, famName, format string, data []byte, allowed map[int64]string, in map[string]any) (members int, ok bool) {
 	dec, err := DecodePkg(format, data)
 	if err != nil {
@@ -252,6 +267,13 @@ func checkStamps(c *Ctx, fam *report.Family, famName, format string, data []byte
 	for _, s := range collectStamps(dec) {
 		if kind, ok := allowed[s.Val]; ok {
 			fam.Count(format + ":" + s.Class + "=" + kind)
+			// the two "unset" values are what a library writes when it is given no time at all; they are sourced only
+			// where the code never passes one (these places are the same on every build of the unchanged tree)
+			if (kind == "zero" || kind == "unset-gzip-constant") && !c07UnsetAllowed(format, s, kind) {
+				c.Rep.Find(report.Finding{Property: "C07", Family: famName, Shape: format + ":timestamp-unset:" + s.Class,
+					What:  fmt.Sprintf("timestamp at %s (%s) is the unset value %d although the entry has a configured, explicit or on-disk mtime", s.Where, s.Class, s.Val),
+					Input: in})
+			}
 			continue
 		}
 		fam.Count(format + ":" + s.Class + "=UNSOURCED")
@@ -325,8 +347,26 @@ func runC07(c *Ctx) error {
 		s.Describe["scripts"] = sels
 	}
 
+	// settings kept in Go maps (custom control fields, incl. names that differ only in case), many relation items,
+	// alternatives, triggers: whatever order the maps are walked in must not reach the package
+	withMaps := func(s *PkgSpec) {
+		old := s.Mutate
+		s.Mutate = func(info *nfpm.Info) {
+			if old != nil {
+				old(info)
+			}
+			info.Deb.Fields = map[string]string{"Bugs": "https://bugs.example.com", "bugs": "lower", "Vcs-Git": "git://x", "vcs-git": "git://y", "X-A": "1", "X-B": "2", "X-C": "3", "x-a": "4"}
+			info.IPK.Fields = map[string]string{"Source": "upper", "source": "lower", "SOURCE": "caps", "Custom": "c", "custom": "d", "Extra-One": "1", "Extra-Two": "2", "extra-one": "3"}
+			info.Depends = []string{"libc6", "bash (>= 4)", "zlib"}
+			info.Provides = []string{"virt-a", "virt-b"}
+			info.IPK.Alternatives = []nfpm.IPKAlternative{{Priority: 100, Target: "/usr/bin/x", LinkName: "/usr/bin/y"}, {Priority: 5, Target: "t", LinkName: "l"}}
+			info.Deb.Triggers.Interest = []string{"trig-a", "trig-b"}
+		}
+		s.Describe["map_settings"] = "deb.fields / ipk.fields with names differing only in case, relations, alternatives, triggers"
+	}
+
 	// ---------------- family 1: rebuild in process ----------------
-	fam := c.Rep.Family("rebuild-in-process", "random content lists (genPkgSpec: files, configs, globs, dirs, symlinks, trees, ghosts, docs, per-entry file_info incl. explicit mtimes, deb/rpm compressors; the first spec carries one compressible file larger than every compressor block) with mtime forced to 1700000000, rpm build host fixed, optional scripts, x 5 formats; package A is rebuilt immediately, after the wall-clock second changed (one 1.2 s sleep), under GOMAXPROCS 1/2/4/16, and from the tree root with every source path rewritten to a relative one; every rebuild must be byte-identical to A; one evaluation per (spec, format, variant); non-trivial = A built and has more than one payload member")
+	fam := c.Rep.Family("rebuild-in-process", "one in three specs carries custom control fields kept in maps, with names differing only in case; random content lists (genPkgSpec: files, configs, globs, dirs, symlinks, trees, ghosts, docs, per-entry file_info incl. explicit mtimes, deb/rpm compressors; the first spec carries one compressible file larger than every compressor block) with mtime forced to 1700000000, rpm build host fixed, optional scripts, x 5 formats; package A is rebuilt immediately, after the wall-clock second changed (one 1.2 s sleep), under GOMAXPROCS 1/2/4/16, and from the tree root with every source path rewritten to a relative one; every rebuild must be byte-identical to A; one evaluation per (spec, format, variant); non-trivial = A built and has more than one payload member")
 	n := c.N(25, 400)
 	var built []*c07Built
 	evalKeyExtra := "" // distinguishes the GOMAXPROCS values inside the gomaxprocs variant
@@ -369,6 +409,9 @@ func runC07(c *Ctx) error {
 		s.MTime = c07MTime
 		if r.Bool() {
 			withScripts(s)
+		}
+		if i%3 == 1 {
+			withMaps(s)
 		}
 		allowed := allowedFor(disk, s.MTime, s.Raw)
 		for _, f := range Formats {
